@@ -57,3 +57,46 @@ def group_request(wmo_sn=('0', '0_0', '33'), local_sn=None, root=None):
 def bundled_versions():
     d = os.path.join(tables_root(), '0', '0_0')
     return sorted((int(x) for x in os.listdir(d) if x.isdigit()))
+
+
+def expected_sn(master_number, centre, subcentre, version, local_version, root=None):
+    """The table group a DECODER has to use for the given section 1 values, worked out by the harness (not asked
+    from the implementation): the named master version and local tables when they are bundled, else the documented
+    fall-backs (default master table 0 / default version; the centre's sub-centre 0; no local tables).
+    -> (wmo_sn, local_sn or None)"""
+    from pybufrkit.tables import (DEFAULT_MASTER_TABLE_NUMBER, DEFAULT_MASTER_TABLE_VERSION, DEFAULT_ORIGINATING_CENTRE,
+                                  DEFAULT_ORIGINATING_SUBCENTRE)
+    root = root or tables_root()
+    m = str(master_number or DEFAULT_MASTER_TABLE_NUMBER)
+    if not os.path.isdir(os.path.join(root, m)):
+        m = str(DEFAULT_MASTER_TABLE_NUMBER)
+    v = str(version or DEFAULT_MASTER_TABLE_VERSION)
+    if not os.path.isdir(os.path.join(root, m, '0_0', v)):
+        v = str(DEFAULT_MASTER_TABLE_VERSION)
+    wmo = (m, '0_0', v)
+    local = None
+    if local_version:
+        c = centre or DEFAULT_ORIGINATING_CENTRE
+        sc = subcentre or DEFAULT_ORIGINATING_SUBCENTRE
+        for cs in ('%d_%d' % (c, sc), '%d_%d' % (c, DEFAULT_ORIGINATING_SUBCENTRE)):
+            if os.path.isdir(os.path.join(root, m, cs, str(local_version))):
+                local = (m, cs, str(local_version))
+                break
+    return wmo, local
+
+
+def section1_values(b):
+    """(master table number, centre, sub-centre, master version, local version) read from message bytes by the
+    section layouts of /repo/pybufrkit/definitions (sub-centre 0 where the edition has none)"""
+    from harness import coder_io
+    edition = b[7]
+    lay = coder_io.section_layout(1, edition)
+    bits = ''.join('{:08b}'.format(x) for x in b[8:8 + 64])
+    pos, out = 0, {}
+    for p in lay['parameters']:
+        if p['name'] in ('master_table_number', 'originating_centre', 'originating_subcentre', 'master_table_version',
+                         'local_table_version'):
+            out[p['name']] = int(bits[pos:pos + p['nbits']], 2)
+        pos += p['nbits']
+    return (out.get('master_table_number', 0), out.get('originating_centre', 0), out.get('originating_subcentre', 0),
+            out.get('master_table_version', 0), out.get('local_table_version', 0))
